@@ -21,7 +21,7 @@ def make_chooser(sched):
         return V.RankChooser(sched.get('ranks', {}), default=sched.get('default', 50),
                              timer_rank=sched.get('timer', 50))
     if k == 'delay':
-        return V.DelayChooser(sched['node'], sched.get('after', 0))
+        return V.DelayChooser(sched['node'], sched.get('after', 0), sched.get('what', 'body'))
     raise ValueError(sched)
 
 
